@@ -339,6 +339,8 @@ impl BytecodeBuilder {
                 | Op::SetVar { .. }
                 | Op::DeclareVar { .. }
                 | Op::DeclareVarHoisted { .. }
+                | Op::DeclareNamespaceExport { .. }
+                | Op::BindNamespaceExports { .. }
                 | Op::GetGlobal { .. }
                 | Op::SetGlobal { .. }
                 | Op::CreateObject { .. }
